@@ -305,3 +305,23 @@ func (r *rig) pollPut() bool {
 }
 
 var errSend = errors.New("harness: send failed (client went away)")
+
+// scriptedStream is a free-running SyncStream whose Send is a function.
+type scriptedStream struct {
+	ctx  context.Context
+	send func(round uint64) error
+}
+
+func (s *scriptedStream) Context() context.Context { return s.ctx }
+func (s *scriptedStream) Send(b *proto.BeaconPacket) error {
+	select {
+	case <-s.ctx.Done():
+		return s.ctx.Err()
+	default:
+	}
+	return s.send(b.GetRound())
+}
+
+func syncReq(from uint64) *proto.SyncRequest {
+	return &proto.SyncRequest{FromRound: from, Metadata: &proto.Metadata{BeaconID: "sg"}}
+}
